@@ -295,10 +295,19 @@ def decoration(k, j):
         {'cls': ['c%d' % j], 'text': '\nLa%d\nLb%d' % (j, j)},
         {'text': 'La%d\n  \nLb%d\n\n\nLc' % (j, j)},
         {'id': 'i%d' % j, 'text': ' La%d\n\n\tLb%d\n ' % (j, j)},
+        # ordinary attributes whose names resemble / are fragments of `class` and `id`: only the attributes
+        # called exactly `id` and `class` belong to the head, all others to the attribute list, in order --
+        # alone, next to a real id / class, and with text
+        {'attrs': [['a', 'b%d' % j]]},
+        {'cls': ['c%d' % j], 'attrs': [['as', 'x%d' % j], ['idx', 'y%d' % j]]},
+        {'id': 'i%d' % j, 'cls': ['c%d' % j], 'attrs': [['s', 'v%d' % j], ['i', 'w%d' % j], ['d', 'z%d' % j]]},
+        {'attrs': [['classes', 'k%d' % j], ['cl', 'm%d' % j], ['c', 'n%d' % j], ['l', 'o%d' % j], ['ss', 'p%d' % j], ['la', 'q%d' % j]]},
+        {'id': 'i%d' % j, 'attrs': [['ids', 'u%d' % j], ['klass', 'r%d' % j], ['si', 's%d' % j]], 'text': 'T%d' % j},
+        {'attrs': [['i', 'w%d' % j]], 'text': 'La%d\nLb%d' % (j, j)},
     ][k]
 
 
-N_DECORATIONS = 14
+N_DECORATIONS = 20
 
 
 def decorate(skel, reps, variant, offset):
@@ -447,8 +456,9 @@ def run(tier, seed):
     out.append(c.done())
 
     c = Clause('head-forms', 'B',
-               '5 name kinds (div, p, ul, span, implicit) x 14 decorations (bare, class, id, id+3 classes, attribute, class+attributes, text, '
-               '2-line text, class+3-line text, id+attribute+text, 4 multi-line texts with empty / blank / blank-started lines) x 10 positions in a small tree x 4 indent strings',
+               '5 name kinds (div, p, ul, span, implicit) x 20 decorations (bare, class, id, id+3 classes, attribute, class+attributes, text, '
+               '2-line text, class+3-line text, id+attribute+text, 4 multi-line texts with empty / blank / blank-started lines, 6 with '
+               'attributes named like fragments / relatives of class and id: a as idx s i d classes cl c l ss la ids klass si) x 10 positions in a small tree x 4 indent strings',
                'complete product as stated', 'a case is (AST, indent string)', exhaustive=True)
     run_parallel(c, 'bounded.c15', 'check_indent', head_cases(), chunk=100)
     out.append(c.done())
